@@ -20,7 +20,7 @@ DEFAULTS = {
 def toml(settings):
     s = settings
     out = ['[thermal-recorder]', 'output-dir = "{OUT}"', 'min-secs = %d' % s["min"], 'max-secs = %d' % s["max"],
-           'preview-secs = %d' % s["preview"], 'min-disk-space-mb = 0',
+           'preview-secs = %d' % s["preview"], 'min-disk-space-mb = %d' % s.get("mindisk", 0),
            'constant-recorder = %s' % ("true" if s.get("const") else "false"),
            '[windows]', 'start-recording = "%s"' % s.get("window", ("12:00", "12:00"))[0],
            'stop-recording = "%s"' % s.get("window", ("12:00", "12:00"))[1],
@@ -492,12 +492,18 @@ def c04_window_runs(ctx, binp):
     import time
     rng = ctx.rng
     runs = []
-    for k in range(2 if ctx.tier == "quick" else 8):
+    for k in ([0, 1, 3] if ctx.tier == "quick" else range(12)):
         settings, fps = gen_settings(rng)
         now = time.time()
         hm = lambda t: time.strftime("%H:%M", time.localtime(t))
         is_open = (k % 2 == 0)
-        settings["window"] = (hm(now - 3600), hm(now + 3600)) if is_open else (hm(now + 3600), hm(now + 7200))
+        if k % 4 == 3:
+            # the other gate of C04: min-disk-space-mb far beyond what any disk has free (motion, nothing recorded)
+            settings["mindisk"] = 10 ** 9
+        else:
+            settings["window"] = (hm(now - 3600), hm(now + 3600)) if is_open else (hm(now + 3600), hm(now + 7200))
+            if is_open:
+                settings["mindisk"] = 1      # and a requirement that is certainly met
         w, h = 4, 3
         model = rng.choice(["lepton3", "boson"])
         conn, ev, fid = build_conn(rng, settings, w, h, fps, model, 1, rng.randint(40, 80), with_clear=False, with_bad=False, sustain=0.5)
